@@ -198,9 +198,9 @@ def run(ctx, rep):
                     if callee in F.bodies:
                         effs = E.summary(callee)
                         if effs and all(e.exit == "div" for e in effs):
-                            rep.ok("R-ABORT", "%s[%s]" % (callee, "local"), "computed summary: no path returns, none unwinds", cfg=tag)
+                            rep.ok("R-ABORT", "%s[local, %s]" % (callee, "std" if any(c == "feature=std" for c in F.raw["cfg"]) else "no_std"), "computed summary: no path returns, none unwinds", cfg=tag)
                         else:
-                            rep.bad("R-ABORT", "%s[local]" % callee, "the local abort routine can %s" % sorted(set(e.exit for e in effs)), F.loc(F.body(callee)), tag)
+                            rep.bad("R-ABORT", "%s[local, %s]" % (callee, "std" if any(c == "feature=std" for c in F.raw["cfg"]) else "no_std"), "the local abort routine can %s" % sorted(set(e.exit for e in effs)), F.loc(F.body(callee)), tag)
                     else:
                         cls, why2 = model.classify(callee)
                         if cls == model.DIVERGE:
